@@ -375,7 +375,36 @@ def rule_select_default(run):
     c03.rule_select_default(run)
 
 
-RULES = [rule_front, rule_back, rule_trial, rule_join, rule_literals, rule_shadow, rule_backend_sites, rule_bit_literals, rule_select_default]
+def rule_own_value(run):
+    run.begin(
+        "C05.own",
+        "a qualified object owns its value: a Signal/Variable/Port constructed from an initial value holds a NEW primitive "
+        "object (trial assignments write into it; sharing it with the initialiser would change the initialiser)",
+        floor=1,
+    )
+    tq = run.idx.mod(TQ)
+    f = tq.func("TypeQualifier.__init__")
+    n = 0
+    for a in walk_local(f.node):
+        if isinstance(a, ast.Assign) and dotted(a.targets[0]) == "self._value":
+            # the root branch (`_root is not None`) creates a VIEW and must alias; every other assignment constructs
+            in_view_branch = any(isinstance(g, ast.If) and "_root" in src(g.test) and any(x is a for b in g.body for x in ast.walk(b)) for g in tq.parents.ancestors(a))
+            if in_view_branch:
+                continue
+            n += 1
+            ok = isinstance(a.value, ast.Call)
+            run.ob(ok, "TypeQualifier.__init__", file=tq.rel, line=a.lineno, detail=f"value#{n}", expected="self._value = <Wrapped type>(value)  (a fresh object)", found=src(a)[:70])
+    if n < 1:
+        raise AnalysisError("TypeQualifier.__init__: construction of the owned value not found")
+    run.end()
+
+
+def rule_alias(run):
+    from ..rules import snapshot
+    snapshot.run_alias_rule(run, "F-ALIAS")
+
+
+RULES = [rule_front, rule_back, rule_trial, rule_join, rule_literals, rule_shadow, rule_backend_sites, rule_bit_literals, rule_select_default, rule_own_value, rule_alias]
 LEVEL = "other"
 EXPLANATION = (
     "Conversion matrices decided statically for all widths and values: (front end) the accept/reject decision and "
